@@ -22,6 +22,7 @@ from .read import HEADER_SCHEMA, SYNC_SIZE, MAGIC, reader
 from .logical_writers import LOGICAL_WRITERS
 from .schema import extract_record_type, extract_logical_type, parse_schema
 from ._write_common import _is_appendable
+from ._schema_py import _inline_named_schemas
 from .types import Schema, NamedSchemas
 
 
@@ -457,7 +458,9 @@ class GenericWriter(ABC):
         if schema is not None:
             self.schema = parse_schema(schema, self._named_schemas)
 
+        was_parsed = False
         if isinstance(schema, dict):
+            was_parsed = "__fastavro_parsed" in schema
             schema = {
                 key: value
                 for key, value in schema.items()
@@ -467,6 +470,7 @@ class GenericWriter(ABC):
             schemas = []
             for s in schema:
                 if isinstance(s, dict):
+                    was_parsed = was_parsed or "__fastavro_parsed" in s
                     schemas.append(
                         {
                             key: value
@@ -481,7 +485,10 @@ class GenericWriter(ABC):
                 else:
                     schemas.append(s)
             schema = schemas
-
+        if was_parsed:
+            # named types that were parsed separately are only referred to by
+            # name; the header schema has to carry their definitions
+            schema = _inline_named_schemas(schema, self._named_schemas)
         self.metadata["avro.schema"] = json.dumps(schema)
 
     @abstractmethod
